@@ -265,18 +265,62 @@ def generate(rng, tier):
     start = rng.choice(DEC_STARTS if decimal else STARTS)
     actors = []
     for _ in range(rng.randint(1, 6)):
-        ops, _ = gen.ops(start, 0, rng.randint(1, 6))
+        ops, end = gen.ops(start, 0, rng.randint(1, 6))
+        if end is not None and rng.random() < 0.12:
+            # an unguarded wait for infinity at the end: it resumes when the clock reads inf (after
+            # everything finite has happened), and time goes on "at infinity" from there
+            ops.append(rng.choice([{"op": "sleep", "d": "inf"},
+                                   {"op": "at", "cmp": "==", "t": "inf"},
+                                   {"op": "at", "cmp": ">=", "t": "inf"}]))
+            ops.append({"op": "now"})
+            for _ in range(rng.randint(0, 2)):
+                ops.append(rng.choice([{"op": "sleep", "d": rng.choice([1, "inf"])},
+                                       {"op": "postpone", "k": 1},
+                                       {"op": "at", "cmp": rng.choice(["==", ">="]), "t": "inf"},
+                                       {"op": "at", "cmp": ">=", "t": 1}]))
+                ops.append({"op": "now"})
         actors.append({"name": gen.fresh("a"), "ops": ops})
     scenario = {"start": start, "resources": {}, "actors": actors}
     if rng.random() < 0.25:
         # all waits for the same (comparison, date) use one condition object, like a module-level
         # `DEADLINE = time >= 10`: re-used after being abandoned (until cut-off) and by several
         scenario["share_conditions"] = True
+        if rng.random() < 0.5:
+            # ... and the program is run twice (two replications around module-level condition
+            # objects): the second run starts before dates the objects have already seen pass
+            scenario["share_conditions"] = "history"
     case = {"property": ID, "scenario": scenario, "plan": [],
             "config": {"waitq": rng.choice(["heap", "sd"])}}
+    if scenario.get("share_conditions") == "history":
+        case["repeat"] = True
     if not valid(case):        # generator and model disagree: never run such a program
         raise AssertionError("C01 generator produced an invalid program")
     return case
+
+
+def run_case(case):
+    """One run - or, for `repeat` cases, two runs of the same program around the same condition
+    objects; each run must match the same model."""
+    import sys
+    from ..runner import run_one
+    from ..world import SHARED_CONDITIONS
+    P = sys.modules[__name__]
+    if not case.get("repeat"):
+        return run_one(P, case)
+    SHARED_CONDITIONS.clear()
+    try:
+        first = run_one(P, case)
+        if first.violations:
+            return first
+        second = run_one(P, case)
+        for violation in second.violations:
+            violation["msg"] = "second run with the same condition objects: " + violation["msg"]
+        second.ticks += first.ticks
+        second.stats = dict(second.stats or {})
+        second.stats["probe.second-runs-with-shared-conditions"] = 1
+        return second
+    finally:
+        SHARED_CONDITIONS.clear()
 
 
 WATCHED = ("start", "end", "sleep-", "at-", "now")
